@@ -7,6 +7,9 @@ import (
 	sync "github.com/jcmturner/gokrb5/v8/zzverif/vsync"
 )
 
+// VerifMinimal: false in this (full) variant of the exports; see shim/exports-min.
+const VerifMinimal = false
+
 // VerifResetReplayCache discards the replay-cache singleton so that the next
 // GetReplayCache call builds a fresh one (and starts a fresh clean-up loop).
 func VerifResetReplayCache() {
